@@ -345,7 +345,7 @@ func replayFinding(p *PropCheck, f Finding) (bool, string, string) {
 	os.WriteFile(filepath.Join(dir, "overlay.json"), ovj, 0o644)
 	meta, _ := json.MarshalIndent(map[string]string{"property": p.ID, "signature": f.Signature(), "entry": f.Entry, "pkg": f.PkgDir, "repo": repoDir()}, "", " ")
 	os.WriteFile(filepath.Join(dir, "meta.json"), meta, 0o644)
-	run := fmt.Sprintf("#!/bin/sh\n# replays the counterexample against the real build; prints REPLAY-OUTCOME\ncd %s && env -u GOTOOLCHAIN GOFLAGS=-mod=mod GOPROXY=off VERIF_ENTRY=%s VERIF_MODEL=%s/model.json go test -vet=off -count=1 -timeout 120s -run '^TestVerifReplay$' -overlay %s/overlay.json ./%s/ 2>&1\n",
+	run := fmt.Sprintf("#!/bin/sh\n# replays the counterexample against the real build; prints REPLAY-OUTCOME\ncd %s && env -u GOTOOLCHAIN GOFLAGS=-mod=mod GOPROXY=off VERIF_ENTRY=%s VERIF_MODEL=%s/model.json go test -v -vet=off -count=1 -timeout 120s -run '^TestVerifReplay$' -overlay %s/overlay.json ./%s/ 2>&1\n",
 		repoDir(), f.Entry, dir, dir, f.PkgDir)
 	os.WriteFile(filepath.Join(dir, "run.sh"), []byte(run), 0o755)
 	ok, detail := execReplay(dir)
